@@ -553,6 +553,9 @@ func wdSeconds(timeout time.Duration) int {
 
 var abort atomic.Bool
 
+var noteMu sync.Mutex
+var slowNotes []string
+
 func tail(s string, n int) string {
 	if len(s) > n {
 		return "..." + s[len(s)-n:]
@@ -911,6 +914,9 @@ func superMain(w World, cfg Config) int {
 			}
 		}
 	}
+	for _, n := range slowNotes {
+		fmt.Fprintln(os.Stderr, "NOTE:", n)
+	}
 	for _, t := range trouble {
 		fmt.Fprintln(os.Stderr, "TROUBLE:", t)
 	}
@@ -1101,7 +1107,10 @@ func runWorker(j job, cfg Config, workdir string) (fs []found, trouble []string,
 				// a confirmed crash or hang: the verdict is settled, do not spend the rest of the budget dying
 				abort.Store(true)
 			case wasHung:
-				trouble = append(trouble, fmt.Sprintf("case seed %d exceeded the per-case budget once but returned cleanly when run alone; not reported (%s)", cs, head(det, 300)))
+				// a slow moment on a loaded machine, not a property of the code: the case terminates when run alone
+				noteMu.Lock()
+				slowNotes = append(slowNotes, fmt.Sprintf("case seed %d exceeded the liveness bound once but returned cleanly when re-run alone with three times the bound (machine load); counted, not reported", cs))
+				noteMu.Unlock()
 			default:
 				trouble = append(trouble, fmt.Sprintf("worker died in case %d (seed %d) but the case alone did not fail: %s // %s", lastCase, cs, head(det, 300), tail(stderrS, 1500)))
 			}
@@ -1236,22 +1245,23 @@ func writeEvidence(w World, cfg Config, st *Stats, cases int, seed uint64, wall 
 		}
 	}
 	cov := map[string]any{
-		"evaluations":         cases,
-		"distinct_nontrivial": distinct[d.DistinctSet],
-		"rule":                d.Rule,
-		"samples":             st.Samples,
-		"exhaustive":          false,
-		"distinct_by_measure": distinct,
-		"faults_fired":        faults,
-		"reach_probes":        reach,
-		"counters":            other,
-		"runs_per_hour":       int(float64(cases) / wall * 3600),
-		"seeds_per_hour":      int(float64(cases) / wall * 3600),
-		"worker_processes":    procs,
-		"simulated_time":      "not applicable: the system under test has no timers or deadlines; progress is counted in callback steps / scheduler steps (see counters)",
-		"components":          d.Components,
-		"harness_trouble":     trouble,
-		"known_findings_hit":  nknown,
+		"evaluations":                  cases,
+		"distinct_nontrivial":          distinct[d.DistinctSet],
+		"rule":                         d.Rule,
+		"samples":                      st.Samples,
+		"exhaustive":                   false,
+		"distinct_by_measure":          distinct,
+		"faults_fired":                 faults,
+		"reach_probes":                 reach,
+		"counters":                     other,
+		"runs_per_hour":                int(float64(cases) / wall * 3600),
+		"seeds_per_hour":               int(float64(cases) / wall * 3600),
+		"worker_processes":             procs,
+		"simulated_time":               "not applicable: the system under test has no timers or deadlines; progress is counted in callback steps / scheduler steps (see counters)",
+		"components":                   d.Components,
+		"harness_trouble":              trouble,
+		"slow_cases_reconfirmed_alone": len(slowNotes),
+		"known_findings_hit":           nknown,
 	}
 	for k, v := range d.Extra {
 		cov[k] = v
